@@ -32,6 +32,21 @@ CHECKS.update({
     ),
 })
 
+CHECKS.update({
+    "C01": (
+        "Hypothesis type-directed program generator + differential oracle: library expression list evaluated on all 2^n rows vs CPython executing the same source over instrumented fixed-width numbers (exact/wrap/undetermined regimes); closed negative-space list",
+        "Generated programs over the documented subset (mixed widths, operator combinations, if/for/aug-assign/unpack, builtins, list lookups, tuples/lists/matrices, chars, fixed point) are translated under both optimizer profiles; every argument assignment (<=12 bits) is compared with the reference, truth_table() and its header are cross-checked on small functions, free or missing symbols are violations. Programs adjacent to the subset must be rejected or be right. Sampled over programs, exhaustive over inputs.",
+        "Trusts the reference semantics in vlib/refsem.py (mathematical integers + width rules read off the library's result types) and vlib/boolsem.py; rows the property leaves open are not judged; library exceptions are clean rejections.",
+        "DESIGN.md section 3 C01",
+    ),
+    "C04": (
+        "Hypothesis-generated SSA definition lists (incl. near-miss shapes of every rewrite rule) x {default, fast, each single step}; oracle: own column evaluator on all 2^n assignments, before vs after",
+        "Each profile and each individual rewrite step is applied to generated definition lists; every return symbol must keep its truth table on all assignments, no free symbol may appear, no return symbol may be lost, the input list must not be mutated. Sampled over lists (<=6 inputs), exhaustive over assignments.",
+        "Trusts vlib/boolsem.py; unevaluated sympy trees are only generated without constants (sympy itself mis-simplifies Not(true, evaluate=False)).",
+        "DESIGN.md section 3 C04",
+    ),
+})
+
 NOT_YET = "check not built yet in this session (work in progress; see DESIGN.md section 3)"
 
 
